@@ -2,6 +2,6 @@
 import importlib
 
 REGISTRY = {}
-for _m in ["c01", "c02", "c04", "c05", "c06", "c07", "c08", "c09", "c10", "c11", "c12", "c13", "c14", "c15", "c16", "c17", "c18", "c19", "c20"]:
+for _m in ["c01", "c02", "c03", "c04", "c05", "c06", "c07", "c08", "c09", "c10", "c11", "c12", "c13", "c14", "c15", "c16", "c17", "c18", "c19", "c20"]:
     mod = importlib.import_module("props." + _m)
     REGISTRY[mod.PROP.pid] = mod.PROP
